@@ -76,6 +76,9 @@ def _ref_fit(payload):
   return pickle.dumps(ref, protocol=4)
 
 
+FRESH_REF_ONE_IN = 20
+
+
 class Oracle(object):
 
   def __init__(self, check_reference=True, pristine_refs=True):
@@ -104,7 +107,7 @@ class Oracle(object):
       if isinstance(h.pre, list):
         params["preprocessor"] = Sp.tolist()
       elif h.store is not None:
-        params["preprocessor"] = world.PointStore(Sp, mixed=h.store.mixed)
+        params["preprocessor"] = world.PointStore(Sp, mixed=h.store.mixed, returns=h.store.returns)
       else:
         params["preprocessor"] = Sp
     ref = cls_of(h.name)(**params)
@@ -132,7 +135,18 @@ class Oracle(object):
       # the reference fit happens in a process in which the history under test
       # never happened (forked from the pristine server): module-level state that
       # the history may have left behind cannot reach it
-      st, val = world.pristine().call(_ref_fit, (h.name, params, args, kwargs, amb, eig))
+      payload = (h.name, params, args, kwargs, amb, eig)
+      if amb % FRESH_REF_ONE_IN == 0 and m.fresh_ref_budget > 0:
+        # ... and now and then in a brand-new interpreter with another string-hash salt
+        # (a model that depends on hash order, import order or anything else process-wide
+        # is not a function of data, parameters and random_state)
+        m.fresh_ref_budget -= 1
+        st, val = world.fresh_call("mlsim.props.c17", "_ref_fit", payload)
+        if st != "ok" and val[0] == "FreshInterpreterFailed":
+          raise RuntimeError("reference interpreter failed: %s" % val[1])
+        m.cov["reference_fits_in_fresh_interpreter"] += int(st == "ok")
+      else:
+        st, val = world.pristine().call(_ref_fit, payload)
       if st != "ok":
         raise RefFitError("%s: %s" % tuple(val))
       m.cov["reference_fits_in_pristine_process"] += 1
